@@ -6,7 +6,8 @@ from vlib.engine import Prop, Failure, run_side
 from translate import tables_alphabet
 
 SENT, ILLEGAL, IGNORED = 255, 254, 253
-SAFE_GET2 = True     # esl_sq_GetFromMSA ss-buffer overflow on reuse (patch proposed: /var/tmp/fixes-proposed/C08-sq-getfrommsa-ss.patch) not yet in the tree
+CR_INTMAX = False    # send start / L = INT_MAX to esl_sq_CountResidues (int overflow in its range test: patch proposed, C08-countresidues-int-overflow)
+SAFE_GET2 = False    # True = keep away from the esl_sq_GetFromMSA ss-buffer overflow on reuse (repaired in 4807e60: every shape is sent)
 
 # ---- independent statement of the IUPAC codes (hand-written; NOT derived from the code) -------------------------
 NUC_SETS = {"A": "A", "C": "C", "G": "G", "T": "T", "R": "AG", "Y": "CT", "M": "AC", "K": "GT", "S": "CG", "W": "AT",
@@ -152,7 +153,7 @@ class C08(Prop):
         "iscvec_spec", "sq_count_residues_text_spec", "textizen_spec", "dsqrlen_dsqdup_spec", "count_nondegenerate_codes",
         "custom_rejected_calls", "custom_setdegeneracy_post", "custom_ignored_caseins_post",
         "char_classes_regenerated", "guess_probe_regenerated", "sq_guess_counts_all", "sq_copy_spec", "match_uniform",
-        "fetch_from_msa_modes_agree", "strdealign_spec", "std_gapchars_ok", "get_from_msa_ss_buffer_fixed",
+        "fetch_from_msa_modes_agree", "strdealign_spec", "std_gapchars_ok", "get_from_msa_ss_buffer_safe",
     )]
     claimed = True
     technique = ("Lean 4 proof: table theorems closed by `decide` over the whole regenerated tables (vs a hand-written IUPAC statement), "
@@ -173,6 +174,7 @@ class C08(Prop):
                   "esl_abc_TextizeN for every window (inside: L symbols and no NUL; reaching a sentinel: NUL there); dsqrlen, dsqdup/dsqcpy, Count on canonical/gap/nonresidue/missing; a rejected SetDegeneracy/SetCaseInsensitive leaves exactly the effect of the accepted prefix of its argument, accepted SetDegeneracy/SetIgnored/SetCaseInsensitive satisfy their documented postconditions; "
                   "esl_sq_Copy in all four text/digital combinations converts faithfully and leaves n = sequence length (text->digital refuses ignored/invalid characters); "
                   "esl_sq_FetchFromMSA: text-mode dealigning (esl_strdealign, \"-_.~\") and digital dealigning (XDealign/CDealign) keep the same columns, so fetching commutes with digitising (sequence, n, SS line); Match with the uniform background = |S(x) cap S(y)|/(|S(x)||S(y)|); "
+                  "no history of esl_sq_GetFromMSA calls on a reused ESL_SQ copies past sq->ss; "
                   "the character-class macros esl_abc_{C,X}Is* on all 256 chars/codes of the 5 alphabets and 78 GuessAlphabet probe compositions are regenerated from the tree and closed by decide. "
                   "The hand model is tied to the tree by an exact differential run (all single bytes, random strings up to 10^4, custom alphabets).")
     level_note = ("Trusted: Lean kernel + propext/Classical.choice/Quot.sound; table dumper; fidelity of the hand model is checked (not proved) by the "
@@ -193,7 +195,7 @@ class C08(Prop):
                    "digital sequences handed to Textize/revcomp/dealign contain valid codes (< Kp); other codes are an out-of-bounds read in C = fault in the model",
                    "allocation never fails (eslEMEM paths not modelled)",
                    "esl_sq_Copy: the sequence and n of the four text/digital combinations are modelled (names, ss/xr markup, coordinates and offsets are not)",
-                   "esl_sq_FetchFromMSA / esl_sq_GetFromMSA: one-row alignments, sequence + SS line (no #=GR markup, names, accessions); the ss-buffer overflow of esl_sq_GetFromMSA on a reused object (second SS line longer than the first, width <= 255) is a defect with a proposed patch: the model carries it as fault, the generator keeps away (SAFE_GET2), the safety theorem is about the repaired allocation",
+                   "esl_sq_FetchFromMSA / esl_sq_GetFromMSA: one-row alignments, sequence + SS line + the allocation size of sq->ss across two calls on a reused object (no #=GR markup, names, accessions)",
                    "esl_msa_GuessAlphabet: text-mode alignments (a digital alignment answers msa->abc->type: not modelled)",
                    "esl_sq_Digitize/Textize/ReverseComplement on an ESL_SQ: sequence, ss line and start/end; extra residue markup (xr) not modelled",
                    "esl_abc_Match: comparisons involving gap/nonresidue/missing/invalid codes return 0.0 (repaired in the tree: the guard tested x twice)",
@@ -268,6 +270,11 @@ class C08(Prop):
             ops = ["abc type=%s" % name] + ["sqfetch mode=text row=41%02x43 ss=3c2e3e" % c for c in range(1, 256)]
             ops += ["sqfetch mode=digital row=00%02x01 ss=3c2e3e" % x for x in range(len(STD[name][0]))]
             out.append({"name": "sqfetch-allbytes-%s" % name, "ops": ops, "sticky": 1})
+        # regression (fixed in 4807e60): a reused ESL_SQ receiving a longer SS line than the first time overflowed sq->ss
+        out.append({"name": "sqget2-ss-reuse", "sticky": 1, "ops": ["abc type=dna"] + [
+            "sqget2 mode=%s row1=%s row2=%s ss1=%s ss2=%s" % (m, hx(r1), hx(r2), hx(b"." * len(r1)), hx(b"<" * len(r2)))
+            for m, r1, r2 in (("text", b"A" * 10, b"C" * 100), ("digital", bytes([0] * 10), bytes([1] * 100)), ("text", b"A", b"C-"),
+                              ("text", b"A" * 10, b"C" * 255), ("digital", bytes([0] * 10), bytes([1, 4] * 127)), ("text", b"A" * 10, b"C" * 256))]})
         # regression (fixed in 6b1a313): esl_sq_Copy text -> digital with a character the alphabet ignores left dst->n > the digital length
         out.append({"name": "sqcopy-ignored", "ops": ["abc type=dna", "ignored chars=2009", "dump", "sqcopy from=text to=digital hex=%s" % hx(b"AC GT ACGT"),
                                                        "sqcopy from=text to=digital hex=%s" % hx(b"ACGTACGT"), "sqcopy from=text to=text hex=%s" % hx(b"AC GT ACGT")],
@@ -500,8 +507,7 @@ class C08(Prop):
                     ops.append("sqfetch mode=digital row=%s%s" % (hx(row), ssarg))
         if rng.random() < 0.2:
             # two esl_sq_GetFromMSA calls into one reused ESL_SQ: alignment widths around the 256-cell allocation, SS line present / absent
-            # in either call (SAFE_GET2: until the ss-buffer fix lands, a second SS line longer than the first one is only sent when the
-            # width forces esl_sq_GrowTo to reallocate, i.e. alen2 > 255)
+            # in either call, second SS line longer or shorter than the first (the longer-second shape overflowed sq->ss before 4807e60)
             dig = rng.random() < 0.5
             def mkrow(n):
                 if dig: return bytes(rng.choice([K, Kp - 1]) if rng.random() < 0.2 else rng.randrange(0, Kp) for _ in range(n))
@@ -540,6 +546,7 @@ class C08(Prop):
             if rng.random() < 0.6:
                 start = rng.choice([-1, 0, 1, 1, 2, nn, nn + 1, nn + 2, rng.randrange(1, nn + 2)])
                 L = rng.choice([-1, 0, 1, nn, nn - start + 1, nn - start + 2, nn - start, rng.randrange(0, nn + 2)])
+                if CR_INTMAX and rng.random() < 0.1: start, L = rng.choice([(2 ** 31 - 1, 1), (1, 2 ** 31 - 1), (2 ** 31 - 1, 2 ** 31 - 1), (2, 2 ** 31 - 2)])
                 op += " start=%d L=%d" % (start, L)
             ops.append(op)
         if rng.random() < 0.5:
